@@ -71,6 +71,16 @@ Op_MoleculeIndices(n, E) == GR("ok", {ToSet(s) : s \in ToSet(ImplMolecules(n, E)
 \* number of molecules reported (length of the list / number of masks / iterations)
 Op_MoleculeCount(n, E) == GR("ok", Len(ImplMolecules(n, E)))
 
+(* ------------------------------------------------------------------ edits of the live bond list
+   The bond list is a mutable object: bond_list.add_bond(i, j, type) / remove_bond(i, j)
+   (also through array.bonds).  An edit is a record [how, i, j] with i < j; adding an existing
+   bond and removing a missing one change nothing (documented).  Every molecule view answers
+   for the CURRENT bonds (histories: SegMol "ghist" family, Trace "bond" events). *)
+BondEditKinds == {"add", "remove"}
+ApplyBondEdit(E, b) == IF b.how = "add" THEN E \cup {<<b.i, b.j>>} ELSE E \ {<<b.i, b.j>>}
+ApplyBondEdits(E, bs) == FoldLeft(LAMBDA acc, b : ApplyBondEdit(acc, b), E, bs)
+Dom_BondEdit(n, b) == b.how \in BondEditKinds /\ 0 <= b.i /\ b.i < b.j /\ b.j < n
+
 (* ------------------------------------------------------------------ subdivision (scaling) *)
 PairLess(a, b) == a[1] < b[1] \/ (a[1] = b[1] /\ a[2] < b[2])
 EdgeSeq(E) == SetToSortSeq(E, PairLess)
@@ -105,8 +115,18 @@ Law_Subdivide(n, E, L) ==
   /\ g.E \subseteq AllPairs(g.n)
   /\ Components(g.n, g.E) = SubComponents(n, E, L)
 
+\* a new bond merges exactly the molecules of its two ends; removing a bond never merges
+\* molecules (every molecule afterwards lies inside one molecule before)
+Law_BondEdit(n, E, b) ==
+  LET before == Components(n, E)  after == Components(n, ApplyBondEdit(E, b)) IN
+  IF b.how = "add"
+  THEN after = {C \in before : b.i \notin C /\ b.j \notin C}
+               \cup {UNION {C \in before : b.i \in C \/ b.j \in C}}
+  ELSE \A C \in after : \E D \in before : C \subseteq D
+
 \* the documentation's example: 0-1-2 3
 ASSUME ImplConnected({<<0, 1>>, <<1, 2>>}, 2) = {0, 1, 2} /\ ImplConnected({<<0, 1>>, <<1, 2>>}, 3) = {3}
 ASSUME Components(4, {<<0, 2>>}) = {{0, 2}, {1}, {3}}
+ASSUME Components(3, ApplyBondEdit({<<0, 1>>, <<1, 2>>}, [how |-> "remove", i |-> 1, j |-> 2])) = {{0, 1}, {2}}
 ASSUME Subdivide(2, {<<0, 1>>}, 2) = [n |-> 4, E |-> {<<0, 2>>, <<2, 3>>, <<1, 3>>}]
 =============================================================================
